@@ -1,7 +1,7 @@
-/-- commonroad/scenario/scenario.py: Scenario.remove_lanelet — argument is a list of lanelets (a single lanelet is wrapped into a list); `hang` stands for remove_hanging_lanelet_members -/
-def Scenario_remove_lanelet_list (self : CR.Refs.Scn) (lanelet : List (CR.Refs.RmArg)) (referenced_elements : Bool) (hang : CR.Refs.Scn → List CR.Refs.RmArg → CR.Refs.Scn × Option CR.Err) : CR.Refs.Scn × Option CR.Err :=
+/-- commonroad/scenario/scenario.py: Scenario.remove_lanelet — argument is a list of lanelets (a single lanelet is wrapped into a list); remove_hanging_lanelet_members is the translated function above -/
+def Scenario_remove_lanelet_list (self : CR.Refs.Scn) (lanelet : List (CR.Refs.RmArg)) (referenced_elements : Bool) : CR.Refs.Scn × Option CR.Err :=
   if referenced_elements then
-    CR.PyR.andThen (hang self lanelet) (fun self =>
+    CR.PyR.andThen (Scenario_remove_hanging_lanelet_members self lanelet) (fun self =>
       CR.PyR.andThen (CR.PyR.forEach (fun self (la : CR.Refs.RmArg) =>
           if (CR.PyR.findLanelet self.net la.id).isNone then
             (self, some .key)
